@@ -47,6 +47,7 @@ def check(model, tier):
     from ..rules import sqlemit as _sqlemit
 
     _sqlemit.r_select_hooks_get_selects(ctx, "R14.15")
+    structure.r15_2_simplification_shapes(ctx)  # transfer to the current engine returns the relation itself
     _reqeval.r_common_columns_exact(ctx, "R14.14")
     from ..rules import commute as _commute2
 
